@@ -10,6 +10,16 @@ sys.path.insert(0, os.path.join(ROOT, "tools"))
 import extract_include as EI
 
 F = EI.SOURCE
+
+def rename_in_recursive(text):
+    i = text.index("fn expand_mechdown_includes_recursive(")
+    j = text.index("#[cfg(test)]", i)
+    body = text[i:j]
+    body = re.sub(r"\bactive_set\b", "open_files", body)
+    body = re.sub(r"\bcanonical_path\b", "me", body)
+    body = body.replace("open_files.remove(&me);\n  Ok(result)", "let out = result; // done\n  open_files.remove( &me );\n  /* hand it back */ Ok(out)")
+    assert "let out = result" in body
+    return text[:i] + body + text[j:]
 # (id, what, [(old, new), …])       white space in `old` is flexible
 EXPERIMENTS = [
  ("close-exact", "is_code_fence_close: closing run must be exactly as long (`count != min_len`)",
@@ -42,7 +52,37 @@ EXPERIMENTS = [
   [("trimmed.starts_with('{') && trimmed.ends_with('}')", "trimmed.starts_with('{') || trimmed.ends_with('}')")]),
  ("suffix-md", "looks_like_mech_include: suffix `.md`", [('trimmed.ends_with(".mec")', 'trimmed.ends_with(".md")')]),
  ("suffix-starts", "looks_like_mech_include: `starts_with` for `ends_with`", [('trimmed.ends_with(".mec")', 'trimmed.starts_with(".mec")')]),
+ # the control skeleton
+ ("early-return", "recursive: an early `return Ok(…)` for an empty file between insert and remove",
+  [("let mut result = String::new();\n  let mut outside_fence_buffer = String::new();",
+    "if source.is_empty() { return Ok(source); }\n  let mut result = String::new();\n  let mut outside_fence_buffer = String::new();")]),
+ ("remove-dropped", "recursive: `active_set.remove(&canonical_path);` dropped",
+  [("active_set.remove(&canonical_path);\n  Ok(result)", "Ok(result)")]),
+ ("remove-conditional", "recursive: the remove only when the result is non-empty",
+  [("active_set.remove(&canonical_path);\n  Ok(result)", "if !result.is_empty() { active_set.remove(&canonical_path); }\n  Ok(result)")]),
+ ("insert-late", "recursive: the insert moved behind the line loop",
+  [("active_set.insert(canonical_path.clone());\n\n  let mut source = String::new();", "let mut source = String::new();"),
+   ("active_set.remove(&canonical_path);\n  Ok(result)", "active_set.insert(canonical_path.clone());\n  active_set.remove(&canonical_path);\n  Ok(result)")]),
+ ("guard-dropped", "recursive: the `contains` guard dropped",
+  [("if active_set.contains(&canonical_path) {\n    return Err(\n      MechError::new(\n        GenericError {\n          msg: \"Circular include detected\".to_string(),\n        },\n        None,\n      )\n      .with_compiler_loc(),\n    );\n  }", "")]),
+ ("guard-other-key", "recursive: the guard tests `path` (not the variable that is inserted)",
+  [("if active_set.contains(&canonical_path) {", "if active_set.contains(path) {")]),
+ ("remove-other-key", "recursive: the remove uses `path`", [("active_set.remove(&canonical_path);", "active_set.remove(path);")]),
+ ("error-caught", "tokens: an include error is swallowed (`match … { Ok(e) => e, Err(_) => String::new() }`)",
+  [("let expanded = expand_mechdown_includes_recursive(&include_canonical, active_set)?;",
+    "let expanded = match expand_mechdown_includes_recursive(&include_canonical, active_set) { Ok(e) => e, Err(_) => String::new() };")]),
+ ("set-cleared", "tokens: `active_set.clear()` before the recursive call",
+  [("let expanded = expand_mechdown_includes_recursive(&include_canonical, active_set)?;",
+    "active_set.clear();\n        let expanded = expand_mechdown_includes_recursive(&include_canonical, active_set)?;")]),
+ ("tokens-other-dir", "recursive: the final flush calls tokens with `path` instead of `&canonical_path` (same value here, other variable)",
+  [("let expanded = expand_mechdown_include_tokens(&outside_fence_buffer, &canonical_path, active_set)?;\n    result.push_str(&expanded);\n  }\n\n  active_set.remove",
+    "let expanded = expand_mechdown_include_tokens(&outside_fence_buffer, path, active_set)?;\n    result.push_str(&expanded);\n  }\n\n  active_set.remove")]),
+ ("skeleton-renamed", "recursive: the set parameter renamed `open_files`, the key `me`, the result moved to `out` before the remove, comments (same discipline)",
+  [rename_in_recursive]),
+ ("skeleton-break", "recursive: a `break` out of the line loop (the skeleton has no such exit)",
+  [("for line in source.split_inclusive('\\n') {\n    if let Some((marker, min_len)) = active_fence {", "for line in source.split_inclusive('\\n') {\n    if line.is_empty() { break; }\n    if let Some((marker, min_len)) = active_fence {")]),
  # harmless
+ ("crlf", "the whole file with CRLF line ends", [lambda t: t.replace("\n", "\r\n")]),
  ("renamed", "every local and parameter of the four helpers renamed, other layout, comments, CRLF (same meaning)",
   [("fn code_fence_delimiter(line: &str) -> Option<(char, usize, usize)> {\n  let bytes = line.as_bytes();\n  let mut i = 0usize;\n  while i < bytes.len() && bytes[i] == b' ' && i < 4 {\n    i += 1;\n  }\n\n  if i > 3 || i >= bytes.len() {\n    return None;\n  }\n\n  let marker = bytes[i] as char;",
     "fn code_fence_delimiter(text: &str) -> Option<(char, usize, usize)> {\r\n    // the raw bytes\r\n    let raw = text.as_bytes();\r\n    let mut pos = 0usize;\r\n    while pos < raw.len()\r\n       && raw[pos] == b' ' /* blank */ && pos < 4 { pos += 1; }\r\n    if pos > 3 || pos >= raw.len() { return None; }\r\n    let marker = raw[pos] as char;\r\n    let bytes = raw; let i = pos;"),
@@ -74,7 +114,10 @@ def run(exp):
     try:
         os.makedirs(os.path.dirname(os.path.join(tmp, F)), exist_ok=True)
         text = subprocess.run(["git", "-C", "/repo", "show", "HEAD:" + F], stdout=subprocess.PIPE, check=True).stdout.decode("utf-8").replace('\r\n', '\n')
-        for old, new in changes:
+        for ch in changes:
+            if callable(ch):
+                text = ch(text); continue
+            old, new = ch
             pat = re.compile(r'\s+'.join(re.escape(t) for t in old.split()))
             hits = pat.findall(text)
             if len(hits) != 1: return "%s: NOT APPLIED (%d occurrences of %r)" % (eid, len(hits), old[:40])
